@@ -23,9 +23,11 @@ add("C15","enum","Bounded exhaustive: every (columns, rows, backward) shape and 
 add("C17","bfs","Explicit-state model checking of the real SparseMatrix object: BFS over all operation histories to closure (no new concrete states), oracle = agreement with a set model on every transition.","State key = complete ordered adjacency lists; shapes up to 3x2/2x3 (3x3, 2x4 thorough).","explicit-state BFS over API call histories to closure, set reference model")
 add("C18","enum","Exhaustive over the 36 names (parse/print/CLI value list), every edit-distance-1 non-member string, and factory-vs-direct behavioural equality on a family that measurably separates all 48 (schedule, arithmetic) combinations.","Behavioural equality decided on the separating family.","exhaustive enumeration of names and edit-distance-1 strings; differential comparison on a separating input family")
 
+add("C13","sched","Stateless model checking of the real BER engine: BerTest::run (collector, W workers, result channel, termination channels, joins) runs under a controlled scheduler in which every channel operation, spawn, join and thread exit is a scheduling point; ALL schedules with at most b preemptions are enumerated by DFS per scenario (W<=3, b up to 3-4 for two workers, 2-3 for three), including failure-injection scenarios; every complete execution is judged against a fold over the arrival order read from the scheduler's own log (exact statistics at every report, exact stopping point, joins, final 'finished' report, error instead of hang).","Worker counts > 3 and deeper preemption bounds not explored; drops of channel endpoints are not separate scheduling points; a frame budget bounds how far a worker runs ahead.","stateless preemption-bounded DFS of thread schedules of the real code under a controlled scheduler (CHESS-style iterative context bounding)")
+
 NA = {}
 def na(pid, reason): NA[pid] = reason
-for p in ["C12","C13","C16","C19","C20"]:
+for p in ["C12","C16","C19","C20"]:
     na(p, "check not yet built in this round (work in progress; see DESIGN.md section 5)")
 
 def load_overrides():
